@@ -2,11 +2,13 @@ module verifharness
 
 go 1.22
 
-require github.com/tmpim/casket v0.0.0
+require (
+	github.com/caddyserver/certmagic v0.20.0
+	github.com/tmpim/casket v0.0.0
+)
 
 require (
 	github.com/andybalholm/brotli v1.1.0 // indirect
-	github.com/caddyserver/certmagic v0.20.0 // indirect
 	github.com/djherbis/buffer v1.2.0 // indirect
 	github.com/djherbis/nio/v3 v3.0.1 // indirect
 	github.com/dsnet/compress v0.0.2-0.20210315054119-f66993602bf5 // indirect
